@@ -24,7 +24,8 @@ def define(m, els, n, kind, d):
     if kind == "constant":
         els[n].equation = float(d)
     elif kind == "stock":
-        els[n].initial_value = float(d)
+        # "@x": the initial value is the element x itself (its value at the start time), otherwise a number
+        els[n].initial_value = els[d[1:]] if isinstance(d, str) else float(d)
     else:
         els[n].equation = eval(d, {"__builtins__": {}}, dict(els, T=sd.time(), sd=sd))
 
@@ -94,11 +95,29 @@ def run_stochastic_constant(seed):
     if [d(t) for t in ts] != [d(t) for t in ts]:
         return "repeating the evaluation of the constant gives other values"
     return None
+
+def run_long(n_steps, seed):
+    """a long run of a stochastic element: every (element, time) keeps the one value its dependents consumed, however many
+    entries the memo holds by then (bounded: n_steps is stated in the evidence)"""
+    import random as _r
+    _r.seed(seed)
+    m = Model(starttime=0.0, stoptime=float(n_steps), dt=1.0)
+    noise = m.converter("noise"); noise.equation = sd.random(0.0, 1.0)
+    reading = m.converter("reading"); reading.equation = noise * 2.0
+    first = [reading(float(t)) for t in range(n_steps + 1)]
+    for t in range(n_steps + 1):
+        v = noise(float(t))
+        if 2.0 * v != first[t]:
+            return "after %d steps: reading(%d) was computed from noise = %r, noise(%d) is now reported as %r" % (n_steps, t, first[t] / 2.0, t, v)
+    for t in (0, 1, n_steps // 2, n_steps):
+        if reading(float(t)) != first[t]:
+            return "after %d steps: repeating reading(%d) gives %r, the first evaluation gave %r" % (n_steps, t, reading(float(t)), first[t])
+    return None
 '''
 exec(PRELUDE)
 
 NAMES = list(DEFS0)
-ALTS = {'k': [1.0, 5.0, -2.0], 'g': ['k*2.0', 'k+T', '4.0*k'], 'h': ['g-s', 'g*2.0'], 'f': ['g*0.5', 'k'], 'o': ['s*0.2', 'k*0.1'], 's': [0.0, 10.0, -1.0]}
+ALTS = {'k': [1.0, 5.0, -2.0], 'g': ['k*2.0', 'k+T', '4.0*k'], 'h': ['g-s', 'g*2.0'], 'f': ['g*0.5', 'k'], 'o': ['s*0.2', 'k*0.1'], 's': [0.0, 10.0, -1.0, '@k', '@k', '@g', 2.0]}
 
 
 def gen(rnd):
@@ -121,7 +140,16 @@ def main():
     t_end = time.time() + hint.get('budget_s', 20)
     n = 0
     failures = []
-    while time.time() < t_end:
+    n_long = 70001 if hint.get('tier') != 'thorough' else 300001
+    try:
+        bad = run_long(n_long, hint.get('seed', 0))
+    except Exception as e:
+        bad = None      # harness trouble is never a violation
+    n += 1
+    if bad:
+        body = PRELUDE + '\nbad = run_long(%r, %r)\nprint("FAIL: " + bad if bad else "PASS")\nsys.exit(1 if bad else 0)\n' % (n_long, hint.get('seed', 0))
+        failures.append(dict(what=bad, script=write_replay('C08', 'long', body), known=None))
+    while time.time() < t_end and not failures:
         n += 1
         if n % 25 == 1:
             sd_ = rnd.randint(0, 10 ** 6)
